@@ -607,14 +607,14 @@ pub fn check_onehop(b0: &[u8]) -> Obs {
         }
         let enc = mm.try_encode_to_vec().unwrap_or_default();
         if enc.len() == bv.len() && (enc[0] != bv[0] || enc[2..] != bv[2..]) {
-            let field = if enc[21] != bv[21] { "exp_time" } else if enc[26..32] != bv[26..32] { "mac" } else { "other" };
+            let field = if enc[21] != bv[21] { "exp_time" } else if enc[26..32] != bv[26..32] { "mac" } else if enc[20] != bv[20] { "flags" } else { "other" };
             pvs.push(pv(
                 format!("Disagree:onehop.set_second_hop:{field}"),
                 format!("set_second_hop(7, key, advanced={adv}): view second hop {} model second hop {}", hex(&bv[20..32]), hex(&enc[20..32])),
             ));
         }
         if !adv {
-            obs["ssh"] = json!({"exp": bv[21], "in": u16::from_be_bytes([bv[22], bv[23]]), "eg": u16::from_be_bytes([bv[24], bv[25]])});
+            obs["ssh"] = json!({"exp": bv[21], "in": u16::from_be_bytes([bv[22], bv[23]]), "eg": u16::from_be_bytes([bv[24], bv[25]]), "alerts": bv[20] & 3 != 0});
         }
         // the MAC of the second hop: AES-CMAC under the accumulator after the first hop
         let segid = u16::from_be_bytes([b0[2], b0[3]]);
@@ -736,7 +736,8 @@ pub fn onehop_cell(cell: &Value) -> (Vec<u8>, Obs, Vec<Value>) {
     let g = |k: &str| cell[k].as_u64().unwrap_or(0);
     let mut h1 = small_hop(1, g("e1") as u8, false, false);
     h1.cin = g("in1") as u16;
-    let mut h2 = small_hop(2, g("e2") as u8, false, false);
+    let fl2 = cell["fl2"].as_bool().unwrap_or(false);
+    let mut h2 = small_hop(2, g("e2") as u8, fl2, fl2);
     h2.cin = g("in2") as u16;
     let b = onehop_bytes(cell["cd"].as_bool().unwrap_or(false), false, 0x1000, TS_BASE + g("ts") as u32, &h1, &h2);
     let o = check_onehop(&b);
